@@ -141,7 +141,7 @@ func (c02) Gen(rt *rapid.T, thorough bool) any {
 	if rapid.IntRange(0, 19).Draw(rt, "root_tags") != 0 && s.Root == 2 {
 		s.Root = 1
 	}
-	s.Sep = rapid.SampledFrom([]string{",", ", ", " , ", ",,"}).Draw(rt, "sep")
+	s.Sep = rapid.SampledFrom([]string{",", ", ", " , ", ",,", ",\n\t", " ,\t"}).Draw(rt, "sep")
 	s.Prior = rapid.IntRange(0, 3).Draw(rt, "prior_failed") == 0
 	s.Again = rapid.IntRange(0, 3).Draw(rt, "again") == 0
 	s.Handles = rapid.IntRange(0, 2).Draw(rt, "handles") == 0
